@@ -475,10 +475,26 @@ func vecReuse(ctx *Ctx, t *tape.Tape, a, b []world.Op, cut int, w, h int, op dra
 		}
 		return nil
 	}
+	// the second use may draw into an image of another size, announced
+	// through SetRasterizer (same Renderer, same rasteriser object)
+	if t.Bool() {
+		w2, h2 := 1+t.Intn(48), 1+t.Intn(48)
+		if t.Chance(1, 4) {
+			w2, h2 = w+t.Range(-1, 1), h
+			if w2 < 1 {
+				w2 = 1
+			}
+		}
+		rect = image.Rect(0, 0, w2, h2)
+		w, h = w2, h2
+	}
 	img1 := image.NewRGBA(rect)
 	vz.Dst = img1
 	vz.DrawOp = op
 	tz.Hash = 0
+	if rect != img0.Bounds() || t.Chance(1, 3) {
+		r.SetRasterizer(tz, rect)
+	}
 	p1, _, m1 := guard(func() { world.Run(world.Target{Dst: &r}, b) })
 
 	img2 := image.NewRGBA(rect)
